@@ -3,6 +3,7 @@ import itertools, json, time
 from fractions import Fraction as F
 from core import build, unitgen as G, units_ref as R
 from core.driver import Driver, DriverDied, DriverTimeout
+from core import multi
 from core.run import Acc, finish, rng_for, run_shards, NCPU
 
 PID = "C09"
@@ -202,6 +203,9 @@ def shard(p):
                         acc.violate("c09:offset-in-compound:" + tag, "%r is %s; treating the degree as an interval gives %s - a zero-point offset (or something else) was added" % (q, got, want), case)
                     else:
                         acc.sample({"query": q, "value": str(got), "reading": "interval"}, cap=1)
+        # several expressions in one query string: each gives what it gives alone (core/multi.py)
+        _qs = [r["q"] for r in reqs if len(r["q"]) < 300]
+        multi.stage(acc, d, rng.sample(_qs, min(len(_qs), 300)), rng, 200, PID, p.get("kind", "dbg"))
     finally:
         d.close()
         if d_plain is not d:
